@@ -117,7 +117,7 @@ def render (entry : Key) (t : Tree) (k : Nat) (e : Exn) : Res :=
 
 /-- the documented signal test for a guard (Spec side) -/
 def specSignal (g : Key) (bases : List String) : Bool :=
-  isSignalAt (documented ++ knownFindingSites) g.module g.func g.idx bases
+  isSignalAt documented g.module g.func g.idx bases
 
 def renderGuard (g : Key) : Bool := renderTimeAt g.module g.func
 
@@ -136,13 +136,10 @@ def keyOf (s : Site) : Key := ⟨s.module, s.func, s.idx⟩
 /-- the documented broad handlers (Spec/ExceptPolicy.lean `allowedBroadSites`) -/
 def allowedBroad : List Key := allowedBroadSites.map fun (m, f, i) => ⟨m, f, i⟩
 
-/-- KNOWN FINDING F15: `str(argument)` in `Environment.getitem` / `SandboxedEnvironment.getitem` (`except Exception: pass`) -/
-def knownBroad : List Key := knownFindingSites.map fun en => ⟨en.module, en.func, en.idx⟩
-
 /-- counterexample finder, twin of `C38.broad_handlers_ok`: broad render-time handlers that do not re-raise the same object
-    and are neither allow-listed nor a known finding -/
+    and are not allow-listed -/
 def broadOffenders : List Site :=
-  sites.filter fun s => broad s && renderTime s && !reraises s && !(allowedBroad.contains (keyOf s)) && !(knownBroad.contains (keyOf s))
+  sites.filter fun s => broad s && renderTime s && !reraises s && !(allowedBroad.contains (keyOf s))
 
 /-- render-time handlers that neither re-raise the same object nor stay within a documented / known row -/
 def policyOffenders (tbl : List Entry) : List Site :=
@@ -155,5 +152,48 @@ def hookRowsWithoutDataCall (tbl : List Entry) : List Site :=
 /-- policy rows that name no existing handler (reported as a note, not an obligation: removing a handler breaks nothing) -/
 def staleRows (tbl : List Entry) : List Entry :=
   tbl.filter fun en => !(sites.any fun s => s.module == en.module && s.func == en.func && s.idx == en.idx)
+
+/-! ### Engine state that outlives a render: the module cache
+
+`Template._get_default_module` (environment.py:1419-1444): `if self._module is None: self._module = self.make_module()` —
+the attribute is assigned only after the module body has been evaluated to the end.  The state is the list of templates
+whose `_module` is set; a render is a tree of data events, sequencing and imports. -/
+
+inductive RTree where
+  | skip
+  | ev                                   -- a data event (may carry the fault)
+  | seq (a b : RTree)
+  | imp (name : String) (body : RTree)   -- `{% import name %}` / `{% from name import … %}` without context
+  deriving Repr
+
+abbrev CacheSt := List String
+
+/-- run with the fault at event `k` (`none`: clean run); result: completed?, number of the next event, cache state -/
+def runSt (k : Option Nat) : RTree → Nat → CacheSt → Bool × Nat × CacheSt
+  | .skip, n, st => (true, n, st)
+  | .ev, n, st => (k != some n, n + 1, st)
+  | .seq a b, n, st =>
+    match runSt k a n st with
+    | (true, n', st') => runSt k b n' st'
+    | r => r
+  | .imp name body, n, st =>
+    if name ∈ st then (true, n, st)          -- cached: the body is not evaluated again
+    else match runSt k body n st with
+      | (true, n', st') => (true, n', name :: st')   -- `self._module = …` after the body completed
+      | (false, n', st') => (false, n', st')         -- the exception leaves before the assignment
+
+/-- the part of a render that was completed when the fault at `k` struck, as a tree of its own -/
+def prune (k : Nat) : RTree → Nat → CacheSt → RTree
+  | .skip, _, _ => .skip
+  | .ev, _, _ => .skip
+  | .seq a b, n, st =>
+    match runSt (some k) a n st with
+    | (true, n', st') => .seq a (prune k b n' st')
+    | (false, _, _) => prune k a n st
+  | .imp name body, n, st =>
+    if name ∈ st then .skip
+    else match runSt (some k) body n st with
+      | (true, _, _) => .imp name body
+      | (false, _, _) => prune k body n st
 
 end JinjaV.ExnFlow
